@@ -24,6 +24,7 @@ N11 boolean constants produced by substitution are folded (True or x, if False: 
 
 N12 module-level NAME = <number> (bound once) read in a function of the module where it is not shadowed  ==>  the number
 N16 f(a, **{"k": v})  ==>  f(a, k=v);   kw = {...}; r = f(a, **kw)  ==>  r = f(a, k=...)        (see _SplatLiteral, _inline_kwargs_dicts)
+N19 f(p1=a, p2=b) of a same-module function with keywords in parameter order  ==>  f(a, b)     (see _canonical_calls)
 N17 local bound once to pure arithmetic over numbers, np.pi and parameters  ==>  the expression at its uses   (see _propagate_pure_locals)
 N15 `return self._helper(a, b)` (private method of the same class, tail position)  ==>  the helper's body (see _inline_tail_method_calls)
 N14 <number> (+|-|*) <number>  ==>  the number;   not (a not in b) ==> a in b,  not (a is b) ==> a is not b;   `if not not x` ==> `if x`   (part of the _FoldBool pass)
@@ -413,6 +414,59 @@ def _propagate_pure_locals(fn):
     sub = _ConstSubst(cands)
     fn.body = [sub.visit(st) for st in fn.body]
     return len(cands)
+
+
+def _canonical_calls(tree):
+    """N19:  f(a, q=c, p=b)-style calls of a function defined once at module level in the SAME module are written positionally when that changes nothing:
+             f(face_nodes=x, n_face=y, n_max=z)   with   def f(face_nodes, n_face, n_max)   ==>   f(x, y, z)
+    Side conditions: the callee has only plain parameters (no positional-only / keyword-only / *args / **kwargs) and no decorator other than numba's njit; the call has
+    no * or ** argument; the keywords name, IN THE ORDER WRITTEN, exactly the parameters that follow the positional arguments (so the order of evaluation of the argument
+    expressions is unchanged); the callee's name is not rebound in the calling function."""
+    counts, defs_ = {}, {}
+    for st in tree.body:
+        if isinstance(st, ast.FunctionDef):
+            counts[st.name] = counts.get(st.name, 0) + 1
+            defs_[st.name] = st
+    ok_defs = {}
+    for name, d in defs_.items():
+        a = d.args
+        if counts[name] != 1 or a.posonlyargs or a.kwonlyargs or a.vararg or a.kwarg:
+            continue
+        if any(not (norm_dec(x) in ("njit", "jit")) for x in d.decorator_list):
+            continue
+        ok_defs[name] = [x.arg for x in a.args]
+    if not ok_defs:
+        return 0
+    done = 0
+    for fn in [n for n in ast.walk(tree) if isinstance(n, (ast.FunctionDef, ast.AsyncFunctionDef))]:
+        sc = _Scope()
+        for st in fn.body:
+            sc.visit(st)
+        local = set(sc.bind) | sc.bad | {a.arg for a in fn.args.posonlyargs + fn.args.args + fn.args.kwonlyargs}
+        for c in ast.walk(fn):
+            if not (isinstance(c, ast.Call) and isinstance(c.func, ast.Name) and c.func.id in ok_defs and c.func.id not in local and c.keywords):
+                continue
+            if any(isinstance(a, ast.Starred) for a in c.args) or any(k.arg is None for k in c.keywords):
+                continue
+            params = ok_defs[c.func.id]
+            k0 = len(c.args)
+            names = [k.arg for k in c.keywords]
+            if names == params[k0:k0 + len(names)]:
+                c.args = list(c.args) + [k.value for k in c.keywords]
+                c.keywords = []
+                done += 1
+    return done
+
+
+def norm_dec(d):
+    """name of a decorator: njit, njit(cache=True), numba.njit ..."""
+    if isinstance(d, ast.Call):
+        d = d.func
+    if isinstance(d, ast.Attribute):
+        return d.attr
+    if isinstance(d, ast.Name):
+        return d.id
+    return None
 
 
 class _GetSetAttr(ast.NodeTransformer):
@@ -1796,6 +1850,7 @@ def normalise(tree, relpath=None):
     sp = _SplatLiteral()
     sp.visit(tree)
     n_kw += sp.count
+    n_canon = _canonical_calls(tree)
     n_inlined0 = _inline_wrappers(tree)      # before N5: a thin wrapper that rules know by name keeps its name in its callers
     n_noret = _inline_noreturn(tree)
     n_expr = 0
@@ -1832,4 +1887,4 @@ def normalise(tree, relpath=None):
     _Updates().visit(tree)
     n_upd = sum(1 for n in ast.walk(tree) if isinstance(n, ast.Assign)) - before
     ast.fix_missing_locations(tree)
-    return tree, {"aliases_inlined": n_alias, "update_keys_split": n_upd, "table_loops_unrolled": n_unrolled, "wrappers_inlined": n_inlined, "expression_helpers_inlined": n_expr, "noreturn_helpers_inlined": n_noret, "selector_helpers_inlined": n_sel, "kwargs_dicts_inlined": n_kw, "pure_locals_propagated": n_pure, "tail_method_calls_inlined": n_tail, "flags_inlined": n_flags, "dict_literals_propagated": n_dict, "any_all_expanded": aa.count, "getattr_setattr_folded": gs.count, "numeric_constants_folded": n_const, "boolean_constants_folded": fb.count, "inlined_helpers": sorted(set(_INLINED))}
+    return tree, {"aliases_inlined": n_alias, "update_keys_split": n_upd, "table_loops_unrolled": n_unrolled, "wrappers_inlined": n_inlined, "expression_helpers_inlined": n_expr, "noreturn_helpers_inlined": n_noret, "selector_helpers_inlined": n_sel, "kwargs_dicts_inlined": n_kw, "calls_made_positional": n_canon, "pure_locals_propagated": n_pure, "tail_method_calls_inlined": n_tail, "flags_inlined": n_flags, "dict_literals_propagated": n_dict, "any_all_expanded": aa.count, "getattr_setattr_folded": gs.count, "numeric_constants_folded": n_const, "boolean_constants_folded": fb.count, "inlined_helpers": sorted(set(_INLINED))}
